@@ -723,4 +723,49 @@ pub mod verif_hooks {
     pub fn is_valid_log_line(line: &str) -> bool {
         super::is_valid_log_line(line)
     }
+
+    /// Everything `PrettyLog::write_line` writes to its file for `line`
+    /// (which must end in its newline) at the given depth and configuration.
+    #[allow(clippy::too_many_arguments)]
+    pub fn pretty_line(
+        debug: i32,
+        debug_locks: bool,
+        debug_pids: bool,
+        verbose: i32,
+        xtrace: i32,
+        log: bool,
+        depth: usize,
+        color: bool,
+        line: &str,
+    ) -> Vec<u8> {
+        use super::Logger;
+        super::set_depth(depth);
+        let escapes = super::check_tty(
+            0,
+            if color {
+                super::OptionalBool::On
+            } else {
+                super::OptionalBool::Off
+            },
+        );
+        let config = super::PrettyLogConfig {
+            debug,
+            debug_locks,
+            debug_pids,
+            verbose,
+            xtrace,
+            log,
+        };
+        let mut logger = super::PrettyLog::new(Vec::new(), escapes, config);
+        logger.write_line(line);
+        logger.file
+    }
+
+    /// Everything `RawLog::write_line` writes to its file for `line`.
+    pub fn raw_line(line: &str) -> Vec<u8> {
+        use super::Logger;
+        let mut logger = super::RawLog::new(Vec::new());
+        logger.write_line(line);
+        logger.file
+    }
 }
